@@ -100,6 +100,9 @@ def run_case(ctx, rng, index, casedir):
     if mode != "plain":
         sit["bgzf_input"] += 1
     gaf = os.path.join(casedir, vary_name(rng, "in.gaf") + ("" if mode == "plain" else ".gz"))
+    if rng.random() < 0.06:
+        gaf = os.path.join(casedir, "phased.gaf.tmp")  # provisional name of the input = output name + ".tmp"
+        sit["input_named_output_dot_tmp"] += 1
     ggaf.write_gaf(gaf, lines, mode=mode, rng=rng, layout="tiny")
     # haplotag TSV
     rows = []
